@@ -133,7 +133,7 @@ def fold_stress(ctx: vf.Ctx, want: set, classify, seed_salt=7919):
     n_reg = ctx.n(320, 6000)
     two = [g for g, gt in cc.GATES.items() if gt.num_qudits == 2 and gt.radixes == (2, 2)]
     one = [g for g, gt in cc.GATES.items() if gt.num_qudits == 1 and gt.radixes == (2,)]
-    lines, cases, vlines, vcases = [], [], [], []
+    lines, cases, vlines, vcases, slines, scases = [], [], [], [], [], []
 
     def report(f, case, expected, observed):
         cl = classify(f)
@@ -160,9 +160,13 @@ def fold_stress(ctx: vf.Ctx, want: set, classify, seed_salt=7919):
         if bad:
             report(dict(kind='views', call=call, symptoms=[b[0] for b in bad], detail=bad[:3], pre=pre), case, 'consistent views', jsonable(bad[:3]))
 
-    for t in range(n_reg):
+    import circ_run as cr
+    state = {}
+
+    def one_region(t):
         n = rng.randint(4, 6)
         c = cc.Circuit(n)
+        state.clear()
         for _ in range(rng.randint(8, 26)):
             if rng.random() < 0.8:
                 g = rng.choice(two)
@@ -196,6 +200,7 @@ def fold_stress(ctx: vf.Ctx, want: set, classify, seed_salt=7919):
         scall = ('straighten', region)
         case = dict(kind='circuit-history', pre=pre, call=call)
         scase = dict(kind='circuit-history', pre=pre, call=scall)
+        state['case'], state['call'], state['pre'] = case, call, pre
         ctx.case(('fold_stress', pre, region))
         # (1) check_region's verdict
         try:
@@ -207,6 +212,18 @@ def fold_stress(ctx: vf.Ctx, want: set, classify, seed_salt=7919):
                           f'is_valid_region: {accepted}', 'check_region disagrees with the independent convexity test')
         # (2) straighten alone
         d = c.copy()
+        try:   # the returned (region, net_new_cycles, shadow region): compared with the model's shadow bookkeeping
+            fr = lambda r: cc.fmt(tuple((q, (iv.lower, iv.upper)) for q, iv in sorted(r.items())))
+            d2 = c.copy()
+            r1, net, sh = d2.straighten(CircuitRegion({q: iv for q, iv in region}))
+            sres = f'S {fr(r1)} {net} {fr(sh)} | {cc.dump(d2)}'
+        except (IndexError, ValueError, TypeError) as e:
+            sres = f'E {type(e).__name__} | {cc.dump(d2)}'
+        except Exception:
+            sres = None
+        if sres is not None:
+            slines.extend(['set ' + cc.fmt(pre), 'straighten ' + cc.fmt(region)])
+            scases.append((scase, sres))
         sout = cc.apply_impl(d, scall)
         if sout.kind == 'E' and sout.val.startswith('Internal'):
             report(dict(kind='internal_error', call=scall, detail=sout.val, pre=pre), scase, 'ValueError or success', sout.val)
@@ -221,7 +238,7 @@ def fold_stress(ctx: vf.Ctx, want: set, classify, seed_salt=7919):
         U = c.get_unitary() if ('order' in want and n <= 5) else None
         out = cc.apply_impl(c, call)
         post = cc.snap(c)
-        lines += ['set ' + cc.fmt(pre), 'check_region ' + cc.fmt(region), 'set ' + cc.fmt(pre), 'fold ' + cc.fmt(region)]
+        lines.extend(['set ' + cc.fmt(pre), 'check_region ' + cc.fmt(region), 'set ' + cc.fmt(pre), 'fold ' + cc.fmt(region)])
         cases.append((case, '1' if accepted is True else '0', f'{out} | {cc.fmt(post)}'))
         if out.kind == 'E':
             if out.val.startswith('Internal'):
@@ -239,8 +256,22 @@ def fold_stress(ctx: vf.Ctx, want: set, classify, seed_salt=7919):
                     ctx.violation(dict(call='fold', symptom='unitary-changed'), case, 'same unitary', 'different', 'fold changed the unitary')
         if 'views' in want:
             view_checks(c, call, case, pre, 'fold')
-    got = vf.run_model('circuit', lines + vlines)
+
+    for t in range(n_reg):
+        try:
+            with cr.watchdog(60):
+                one_region(t)
+        except cr.HistoryTimeout:
+            if 'case' in state:
+                report(dict(kind='hang', call=state['call'], detail='no return within 60s', pre=state['pre']), state['case'],
+                       'the call returns', 'no return within 60s')
+    got = vf.run_model('circuit', lines + vlines + slines)
     bad = 0
+    for j, (case, impl) in enumerate(scases):
+        g = got[len(lines) + len(vlines) + 2 * j + 1]
+        if g != impl:
+            bad += 1
+            ctx.mismatch('coq/circuit/CFold.v vs Circuit.straighten (fold_stress)', jsonable(case), g[:2000], impl[:2000])
     for j, (case, acc, impl) in enumerate(cases):
         if got[4 * j + 1] != acc or got[4 * j + 3] != impl:
             bad += 1
